@@ -135,6 +135,8 @@ func (p *Parser) current() Token {
 
 // Term parses a term followed by a full stop.
 func (p *Parser) Term() (Term, error) {
+	p.buf.discard() // The tokens of the previous term are no longer needed.
+
 	t, err := p.term(1201)
 	switch err {
 	case nil:
@@ -925,25 +927,29 @@ func doubleQuotedUnescape(s string) string {
 	}
 }
 
+// tokenRingBuffer holds the tokens of the term being parsed so that the parser can back up over any number of them.
+// It used to be a ring of 4 tokens: backing up over more than that many tokens (nested prefix operators that turn out
+// not to fit) silently lost the tokens in between.
 type tokenRingBuffer struct {
-	buf        [4]Token
+	buf        []Token
 	start, end int
 }
 
 func (b *tokenRingBuffer) put(t Token) {
-	b.buf[b.end] = t
+	b.buf = append(b.buf[:b.end], t)
 	b.end++
-	b.end %= len(b.buf)
 }
 
 func (b *tokenRingBuffer) get() Token {
 	t := b.buf[b.start]
 	b.start++
-	b.start %= len(b.buf)
 	return t
 }
 
 func (b *tokenRingBuffer) current() Token {
+	if b.start >= len(b.buf) {
+		return Token{}
+	}
 	return b.buf[b.start]
 }
 
@@ -952,11 +958,15 @@ func (b *tokenRingBuffer) empty() bool {
 }
 
 func (b *tokenRingBuffer) backup() {
-	b.start--
-	b.start %= len(b.buf)
-	if b.start < 0 {
-		b.start += len(b.buf)
+	if b.start > 0 {
+		b.start--
 	}
+}
+
+// discard forgets the tokens that have been consumed.
+func (b *tokenRingBuffer) discard() {
+	n := copy(b.buf, b.buf[b.start:b.end])
+	b.buf, b.start, b.end = b.buf[:n], 0, n
 }
 
 type unexpectedTokenError struct {
